@@ -184,11 +184,11 @@ pub fn main(args: &Args) -> i32 {
     }
     let mut ev = Evidence::new(args, "exploration");
     let families = vec![
-        Family { menu: Menu::General, k: args.tier.pick(4, 5) },
-        Family { menu: Menu::Args, k: args.tier.pick(3, 4) },
+        Family { menu: Menu::General, k: args.tier.pick(4, 6) },
+        Family { menu: Menu::Args, k: args.tier.pick(3, 5) },
         Family { menu: Menu::Abstract, k: args.tier.pick(4, 6) },
-        Family { menu: Menu::ClientArgs, k: args.tier.pick(3, 4) },
-        Family { menu: Menu::Pointers, k: args.tier.pick(3, 4) },
+        Family { menu: Menu::ClientArgs, k: args.tier.pick(3, 5) },
+        Family { menu: Menu::Pointers, k: args.tier.pick(3, 5) },
         Family { menu: Menu::Overlap, k: args.tier.pick(2, 3) },
         Family { menu: Menu::Lists, k: args.tier.pick(3, 4) },
     ];
